@@ -14,7 +14,7 @@ import random
 
 from harness import core, repo
 
-TITLES = ['Alpha', 'Beta two']
+TITLES = ['Alpha', "Beta's two"]
 
 
 def text_of(codes):
